@@ -1729,7 +1729,7 @@ func init() {
 			"hold:out:l=3:r=3:pat=updsilent:ms=4800", "hold:in:l=6:r=3:pat=updsilent:ms=4800", "hold:out:l=3:r=3:pat=silent:st=openConfirm:ms=4500", "hold:in:l=3:r=9:pat=silent:st=openConfirm:ms=4500",
 			"hold:out:l=3:r=3:pat=slowupd:ms=5500", "hold:in:l=3:r=9:pat=slowupd:ms=5500", "hold:out:l=90:r=3:pat=ka:ms=3500", "hold:in:l=90:r=3:pat=silent:ms=4500",
 			"hold:out:l=30:r=3:r1=9:pat=ka:ms=3500", "hold:out:l=30:r=3:r1=9:pat=silent:ms=4500",
-			"hold:out:l=3:r=3:r1=0:pat=silent:ms=4500", "hold:in:l=3:r=3:pat=silent:ms=4500:linger=1300", "hold:out:l=3:r=3:pat=silent:ms=4500:linger=1300", "hold:out:l=30:r=0:r1=3:pat=ka:ms=3500", "hold:in:l=30:r=3:r1=9:pat=ka:ms=3500")
+			"hold:out:l=3:r=3:r1=0:pat=silent:ms=4500", "hold:in:l=3:r=3:pat=silent:ms=4500:linger=1300", "updates:in:n=450:slow=5000:hold=3:nokeep=1:k=d0", "updates:out:n=450:slow=5000:hold=3:nokeep=1:k=d1", "updates:in:n=45:gapms=100:hold=3:k=g0", "hold:out:l=3:r=3:pat=silent:ms=4500:linger=1300", "hold:out:l=30:r=0:r1=3:pat=ka:ms=3500", "hold:in:l=30:r=3:r1=9:pat=ka:ms=3500")
 		return out
 	}
 	scenarioLists["C07"] = func(tier string, r *rand.Rand) []string {
